@@ -215,7 +215,9 @@ impl<'buf, IO: Io> Connection<'_, 'buf, IO> {
                 .data
                 .outbound
                 .retain_packet(packet_id, offset, len)?;
-            self.session.runtime.send_quota = self.session.runtime.send_quota.saturating_sub(1);
+            self.session
+                .runtime
+                .sync_send_quota(self.session.data.outbound.inflight_publishes());
             debug!(
                 "Enqueued PUBLISH packet_id={=u16} qos={} len={=usize} send_quota={=u16}/{=u16} tx_used={=usize}",
                 packet_id,
